@@ -1,6 +1,9 @@
 (* C18 driver.  Case lines (see harness/cmd/storageharness/c18.go):
      W <commit> <n> <op>...            -> "W <index of the version now current>"
      Q <reader> <tx> <version> <query> -> the serial answer on that version
+     R <kind>                          -> "R <current version>" (restore of the current state)
+     D <outer> <steps> <at> <kind> <n> -> "D ok <generation the final reader saw> <steps>" (Db/LockTable.v lock_scenario)
+     K .. / KC ..                      -> "K same" (kept values; Properties/C18.v kept_observations_persist)
      S.. / P..                         -> "S same" / "P same"
      X <helper>                        -> "X ok"
    All W lines precede the Q lines: the versions are computed once by the extracted
@@ -33,9 +36,9 @@ let parse_wop () =
 
 let parse_query () =
   match next () with
-  | "load" -> QLoad (next_str ())
+  | "load" | "loadby" | "loadent" | "loadraw" -> QLoad (next_str ())   (* the same question through every loader *)
   | "name" -> QName (next_str ())
-  | "tag" -> QTag (next_str ())
+  | "tag" | "tagm" | "tagany" -> QTag (next_str ())   (* index read / FindMatching / FindMatchingAnyOf of one value *)
   | "gitems" -> QGroupItems (next_str ())
   | "links" -> QLinks (next_str ())
   | "rlinks" -> QRevLinks (next_str ())
@@ -120,6 +123,16 @@ let () =
         let v = int_of_string v in
         if v < 0 || v >= Array.length a then print_endline "Q noversion"
         else print_endline (show_answer (eval_placed q a.(v)))
+    | "R" :: _ -> Printf.printf "R %d\n" !nver      (* the current state restored: no version changes *)
+    | "D" :: _ :: steps :: at :: _ ->
+        (* one transaction of joined calls, a restore pending before step [at] (-1: none), a final reader *)
+        let n = String.length steps in
+        let at = int_of_string at in
+        let restore = at >= 0 in
+        (match lock_scenario_plain (nat_of_int n) (nat_of_int (if restore then at else 0)) restore with
+         | Some (g, seen) -> Printf.printf "D ok %d %d\n" (int_of_nat g) (int_of_nat seen)
+         | None -> print_endline "D stuck")
+    | ("K" | "KC") :: _ -> print_endline "K same"   (* an observation, once made, does not change *)
     | "S" :: _ -> print_endline "S same"
     | "P" :: _ -> print_endline "P same"
     | "X" :: _ -> print_endline "X ok"
